@@ -119,7 +119,7 @@ def parseOpnd (s : String) : Option Opnd :=
 def allMn : List Mn :=
   [.mov, .movzx, .movsx, .movsxd, .xchg, .movd, .movq, .movss, .movsd, .movaps, .movups, .movapd, .movdqa, .vmovdqa32, .kmovb, .kmovw,
    .kmovd, .kmovq, .movq2dq, .movdq2q, .cvtss2sd, .cvtsd2ss, .cvtps2pd, .cvtpd2ps, .ldr, .ldrb, .ldrh, .ldrsb, .ldrsh, .ldrsw, .str,
-   .strb, .strh, .fmov]
+   .strb, .strh, .fmov, .sxtb, .sxth, .sxtw, .uxtb, .uxth, .fcvt]
 
 def parseMn (s : String) : Option (Mn × Bool) :=
   match allMn.find? (·.text == s) with
